@@ -855,6 +855,9 @@ class Evaluator(object):
                 self.emit('for', itt, node, guards, fn, chain, extra=H.pat_term(pat, True))
                 self.eval(body, benv, g, fn, chain)
                 return ('ctl', 'for _ in %s' % show(itt))
+            node = H.nest_result_match(node)
+            if node.get('tail_of') in getattr(self, 'tail_sps', ()):
+                self.tail_sps = set(self.tail_sps) | {node.get('sp')}
             sc = self.eval(node['scrut'], env, guards, fn, chain)
             scs = show(sc)
             self.emit('match', sc, node, guards, fn, chain)
@@ -1007,6 +1010,11 @@ class Evaluator(object):
         if node['sp'] in getattr(self, 'tail_sps', ()) and obt[0] != 'ctl':
             # in tail position: match r { Ok(v) => E(v), Err(e) => Err(g(e)) }   ==   { let v = r.map_err(g)?; E(v) }
             t = ('try', subject)
+            for x in self.events[o0:o1]:
+                # what the Ok arm did with the payload it did with the value of `r?`
+                x.term = replace(x.term, payload_ok, t)
+                if getattr(x, 'args', None):
+                    x.args = tuple(replace(a_, payload_ok, t) for a_ in x.args)
             ev_ = Event(idx=o0, kind='try', term=t, node=node, guards=tuple(guards), fn=fn, chain=tuple(chain), sp=node.get('sp'))
             pos = min(o0, e0)
             self.events.insert(pos, ev_)
@@ -1064,6 +1072,23 @@ class Evaluator(object):
             benv = dict(env)
             self.bind_pat(cn['params'][0], t, benv)
             return self.eval(cn['body'], benv, guards, fn, chain)
+        if npath == 'std::result::Result::map' and len(args_nodes) == 2 and node.get('sp') in getattr(self, 'tail_sps', ()):
+            # in tail position `r.map(f)` is `Ok(f(r?))` (the error type is the function's own, so `?` converts nothing)
+            cn = closure_node(args_nodes[1])
+            fnode = H.peel(args_nodes[1]) if isinstance(args_nodes[1], dict) else {}
+            fpath = norm_path(fnode.get('resolved') or fnode.get('path') or '') if fnode.get('k') == 'Def' else None
+            if cn is not None and len(cn['params']) == 1:
+                x = self.eval(args_nodes[0], env, guards, fn, chain)
+                t = ('try', x)
+                self.emit('try', t, node, guards, fn, chain)
+                benv = dict(env)
+                self.bind_pat(cn['params'][0], t, benv)
+                return ('call', 'Ok', (self.eval(cn['body'], benv, guards, fn, chain),), ())
+            if fpath and fpath in self.fns and 'hir' in self.fns[fpath] and len(self.fns[fpath].get('params', [])) == 1:
+                x = self.eval(args_nodes[0], env, guards, fn, chain)
+                t = ('try', x)
+                self.emit('try', t, node, guards, fn, chain)
+                return ('call', 'Ok', (self.apply_fn(fpath, (t,), (), fpath, node, guards, fn, chain),), ())
         if ndecl in ('std::iter::Iterator::try_for_each', 'std::iter::Iterator::for_each') and len(args_nodes) == 2 and closure_node(args_nodes[1]) is not None \
                 and len(closure_node(args_nodes[1])['params']) == 1:
             # `iter.try_for_each(|x| body)` / `iter.for_each(|x| body)`: the loop `for x in iter { body[?] }`
@@ -1119,6 +1144,18 @@ class Evaluator(object):
         if t[0] == 'call' and t[1] == 'std::result::Result::map_err' and len(t[2]) == 2 and t[2][1] is not None and t[2][1][0] == 'path' and \
                 (t[2][1][1].endswith('::into') or t[2][1][1].endswith('::from')):
             t = t[2][0]  # map_err(Into::into): a conversion of the error type, erased like every From/Into
+        if t[0] == 'call' and t[1] == 'std::option::Option::unwrap_or' and len(t[2]) == 2 and t[2][0] is not None and t[2][0][0] == 'call' \
+                and t[2][0][1] == 'std::option::Option::filter' and len(t[2][0][2]) == 2:
+            some, clo = t[2][0][2]
+            if some is not None and some[0] == 'call' and some[1] == 'Some' and len(some[2]) == 1 and clo is not None and clo[0] == 'closure' and len(clo[2]) == 1:
+                # Some(x).filter(|c| p(c)).unwrap_or(d) is `if p(x) {x} else {d}`
+                x = some[2][0]
+                return cond_value(replace(clo[3], ('var', clo[2][0][0], clo[2][0][1]), x), x, t[2][1])
+        return self.apply_fn(npath, args, gargs, ndecl, node, guards, fn, chain, t)
+
+    def apply_fn(self, npath, args, gargs, ndecl, node, guards, fn, chain, t=None):
+        if t is None:
+            t = ('call', npath, args, gargs)
         ev = self.emit('call', t, node, guards, fn, chain, callee=npath, args=args, extra={'decl': ndecl, 'gargs': gargs})
         # bounded inlining of crate-local callees
         target = self.fns.get(npath)
